@@ -22,6 +22,6 @@ func ruleTL(p *Prog, rule, level string, min int) *RuleResult {
 	res.Extra["summaries"] = len(e.sums)
 	res.Assumptions = append(res.Assumptions,
 		"a container obtained from a gate stays exclusively owned until the end of the function that obtained it (no function shares a table between obtaining a writable container and writing through it)",
-		"a table whose slots are transferred together with their flags (paired bulk copy, appendWithoutCopy) is discarded afterwards")
+		"a table of unknown origin (received over a channel, element of a local slice of tables) whose slots are transferred together with their flags by a paired bulk copy is discarded afterwards (ParOr chunk assembly); a transfer out of a parameter-rooted table is not assumed but checked: it creates an obligation for the callers that the source is a temporary")
 	return res
 }
